@@ -158,6 +158,14 @@ def step (_ : Unit) (toks : List String) : Unit × String :=
           some (match r with | .ok a => showAttrs a | .error e => showErr e)
         | "gen" =>
           some (match vpCompile splice d with | .ok c => showGen c | .error e => showErr e)
+        | "dfirst" =>
+          -- the dataclass class before its first instantiation (form D only): nothing is unpacked, cls() is called
+          if form != "D" then none else
+          let tys := (fitems.filterMap parseTy)
+          let dd : DDef Term := { fields := (names.zip tys).map (fun (n, t) => (n, t, alookup defaults n)),
+                                  fixPack := fp, fixUnpack := fu }
+          let r := dataclassDecodeFirst (fun fmts _ => some (fmts.map (fun _ => Term.atom "u"))) splice dd []
+          some (match r with | .ok a => showAttrs a | .error e => showErr e)
         | "fmts" =>
           some ("ok " ++ ",".intercalate (d.fmts.map showFmt))
         | _ => none
